@@ -40,6 +40,10 @@ def jsonable(x):
 def _worker(args):
     modname, task, patches = args
     t0 = time.time()
+    if os.environ.get('VERIF_DEBUG'):
+        import faulthandler, signal
+        faulthandler.register(signal.SIGUSR1, all_threads=True)
+        sys.stderr.write('START %d %s\n' % (os.getpid(), json.dumps(task)[:200]))
     try:
         mod = importlib.import_module(modname)
         res = mod.run_task(task, patches)
@@ -48,6 +52,8 @@ def _worker(args):
         res = {'error': traceback.format_exc()}
     res['task'] = task
     res['wall_s'] = round(time.time() - t0, 3)
+    if os.environ.get('VERIF_DEBUG'):
+        sys.stderr.write('END %d %.1fs\n' % (os.getpid(), res['wall_s']))
     return res
 
 
@@ -59,8 +65,33 @@ def run_tasks(modname, tasks, patches=None, nproc=None):
     if nproc == 1 or len(args) == 1:
         return [_worker(a) for a in args]
     ctx = mp.get_context('fork')
-    with ctx.Pool(min(nproc, len(args)), maxtasksperchild=8) as pool:
-        return list(pool.imap_unordered(_worker, args, chunksize=1))
+    # hard wall-clock guard per task: a solver call that ignores its timeout must not hang the check
+    limit = float(os.environ.get('VERIF_TASK_TIMEOUT', '1500'))
+    pool = ctx.Pool(min(nproc, len(args)), maxtasksperchild=8)
+    out = []
+    try:
+        pending = [(a, pool.apply_async(_worker, (a,))) for a in args]
+        t_last = time.time()
+        while pending:
+            still = []
+            for a, r in pending:
+                if r.ready():
+                    out.append(r.get())
+                    t_last = time.time()
+                else:
+                    still.append((a, r))
+            pending = still
+            if pending and time.time() - t_last > limit:
+                for a, r in pending:
+                    out.append({'error': 'task exceeded the hard time limit of %.0fs (solver did not return)' % limit,
+                                'task': a[1], 'wall_s': limit})
+                break
+            if pending:
+                time.sleep(0.05)
+    finally:
+        pool.terminate()
+        pool.join()
+    return out
 
 
 def expand_splits(modname, tasks, patches=None):
@@ -294,8 +325,9 @@ class Check:
             'wall_s': round(wall, 2),
             'violations': n_viol,
         }
-        os.makedirs(os.path.join(VERIF, 'evidence'), exist_ok=True)
-        with open(os.path.join(VERIF, 'evidence', '%s.json' % self.id), 'w') as f:
+        evdir = os.environ.get('VERIF_EVIDENCE_DIR') or os.path.join(VERIF, 'evidence')
+        os.makedirs(evdir, exist_ok=True)
+        with open(os.path.join(evdir, '%s.json' % self.id), 'w') as f:
             json.dump(ev, f, indent=1)
         self.say('%s %s: tasks=%d paths=%d decisions=%d queries=%d (unsat %d, sat %d, unknown %d) solver=%.1fs '
                  'witnesses_validated=%d violations=%d known=%d canaries=%d wall=%.1fs -> exit %d'
